@@ -798,3 +798,58 @@ pub(crate) fn demonitor_all(actor: ActorId) {
         }
     }
 }
+
+/// Verification hook: a plain-data copy of the four process-group indexes
+#[cfg(feature = "slawlor_ractor_verif")]
+#[derive(Debug, Clone, Default)]
+pub struct VerifSnapshot {
+    /// (scope, group) -> (member ids, per-group listener ids)
+    pub map: Vec<((ScopeName, GroupName), Vec<ActorId>, Vec<ActorId>)>,
+    /// scope -> groups listed in the per-scope index
+    pub index: Vec<(ScopeName, Vec<GroupName>)>,
+    /// (scope, sentinel group) -> world listener ids
+    pub world_listeners: Vec<((ScopeName, GroupName), Vec<ActorId>)>,
+    /// actor -> (memberships, group monitors, world monitors)
+    #[allow(clippy::type_complexity)]
+    pub actor_relations: Vec<(ActorId, Vec<(ScopeName, GroupName)>, Vec<(ScopeName, GroupName)>, Vec<(ScopeName, GroupName)>)>,
+}
+
+/// Verification hook: snapshot the process-group state (not atomic across the four maps)
+#[cfg(feature = "slawlor_ractor_verif")]
+pub fn verif_snapshot() -> VerifSnapshot {
+    let monitor = get_monitor();
+    let pair = |k: &ScopeGroupKey| (k.scope.clone(), k.group.clone());
+    let mut snap = VerifSnapshot::default();
+    for kvp in monitor.map.iter() {
+        snap.map.push((
+            pair(kvp.key()),
+            kvp.value().members.keys().copied().collect(),
+            kvp.value().listeners.iter().map(|l| l.get_id()).collect(),
+        ));
+    }
+    for kvp in monitor.index.iter() {
+        snap.index
+            .push((kvp.key().clone(), kvp.value().iter().cloned().collect()));
+    }
+    for kvp in monitor.world_listeners.iter() {
+        snap.world_listeners.push((
+            pair(kvp.key()),
+            kvp.value().iter().map(|l| l.get_id()).collect(),
+        ));
+    }
+    let relations: Vec<(ActorId, SharedActorRelations)> = monitor
+        .actor_relations
+        .iter()
+        .map(|kvp| (*kvp.key(), kvp.value().clone()))
+        .collect();
+    for (id, rel) in relations {
+        let g = lock_relations(&rel);
+        snap.actor_relations.push((
+            id,
+            g.memberships.iter().map(pair).collect(),
+            g.group_monitors.iter().map(pair).collect(),
+            g.world_monitors.iter().map(pair).collect(),
+        ));
+    }
+    snap
+}
